@@ -19,6 +19,11 @@ Monitors
         bytes on disk, decoded by the independent decoder (vp/refmodels/instrfile.py), are the map / spacing /
         wavelength the writer was given; what the reader returns is what the independent decoder reads.  These judge
         each call on its own, so they are independent of whatever was written or read before in the process.
+  layout.*                                           every writer sees every memory layout of the same asymmetric map (C, Fortran,
+        transposed / rot90 views, strided and reversed slices); a failure the C-ordered copy does not show is keyed
+        `C14/<fmt>/[writer/]form:layout=column-major|non-contiguous`.
+  defaults.*                                         omitted vs explicitly passed documented defaults of every optional argument
+        of the writers / readers, after earlier calls with other explicit values; key `C14/<fmt>/form:<argument>=omitted`.
   truncation.zygo / truncation.codev                 fault enumeration: for EVERY prefix length 0..len-1 of a written
         file the reader must raise, or return the untruncated result when no sample lost a byte, or return the map
         with NaN at every sample that lost a byte together with a warning (both precisions).
@@ -46,7 +51,13 @@ RULE = ('round trips: shape classes (1xN, Nx1, square, non-square, odd/even; enu
         're-save of the array the reader returned; histories: scripted and random sequences of writes (dx == 0 after a '
         'calibrated write, Interferogram default dx, changing dx / wavelength / shape / NaN pattern / dtype / precision, the '
         'same object twice, both formats interleaved) then reads in reverse order; a case is non-trivial when the map has '
-        '>= 2 samples; distinct = distinct descriptor.  truncation: every prefix length 0..len-1 of each written file is one case')
+        '>= 2 samples; distinct = distinct descriptor.  memory layouts: every writer (function forms and Interferogram.save_zygo_dat) x '
+        'C / Fortran / transposed view / rot90 view / strided slice / negative strides / strided slice of a Fortran block x non-square '
+        'and square shapes with both dimensions > 1 and content asymmetric under every flip and transposition x all dtype / precision '
+        'configurations.  omitted vs explicit defaults (class E x B): wavelength / intensity of write_zygo_dat, dx / wavelength of '
+        'Interferogram, comment / typ / nnb of write_codev_gridint, multi_intensity_action of the readers, each omitted and passed as '
+        'the documented default (positional and keyword) after earlier calls with other explicit values; dx / wavelength as python and '
+        'numpy integers; typ in any letter case.  truncation: every prefix length 0..len-1 of each written file is one case')
 ASSUMPTIONS = ['the map handed to the writer is the reference; one quantisation step is lambda/32768 (Zygo, phase_res 1) and '
                '1000*WVL/|SSZ| nm as declared in the written Code V header, decoded by an independent parser',
                'single-precision allowance: when the data are float32, config.precision is 32 or the wavelength is a '
@@ -55,12 +66,16 @@ ASSUMPTIONS = ['the map handed to the writer is the reference; one quantisation 
                'a sample is "missing" in a prefix when not all of its bytes (Zygo: 4 bytes, Code V: its decimal token) are '
                'inside the prefix; sample order in the file is row-major from the top row (MetroPro / Code V convention)',
                'all-NaN maps, maps beyond the int32 range of the Zygo format and Code V FIL (intensity) files are outside the '
-               'domain (height maps with >= 1 finite sample); dx == 0 means "no lateral calibration" and must read back as 0']
+               'domain (height maps with >= 1 finite sample); dx == 0 means "no lateral calibration" and must read back as 0',
+               'documented defaults (table DEFAULTS, from the signatures and docstrings of the current tree): wavelength = 0.6328 um '
+               '(HeNe), intensity = None, typ = SUR, nnb = False, dx = 0; a call that omits an argument must write a file that decodes '
+               '(independent decoder) to the same fields as the call that passes the default explicitly; the Zygo time stamp is not compared']
 REQUIRED = ['roundtrip.zygo', 'roundtrip.codev', 'roundtrip.ifg', 'truncation.zygo', 'truncation.codev',
             'roundtrip.zygo.resave', 'roundtrip.ifg.resave', 'roundtrip.codev.resave',
             'history.zygo', 'history.ifg', 'history.codev', 'history.re-read',
             'writer.contract.zygo', 'writer.contract.codev', 'reader.contract', 'reader.contract.zygo-eq-decoder',
-            'reader.contract.codev-eq-decoder']
+            'reader.contract.codev-eq-decoder', 'layout.zygo', 'layout.ifg', 'layout.codev', 'defaults.zygo', 'defaults.codev',
+            'defaults.readers', 'defaults.omitted-eq-explicit']
 
 CTX = None
 F32 = 2.0 ** -23
@@ -232,6 +247,15 @@ def as_layout(z, layout):
         v = big[1::2, 2::3]                                     # non-contiguous strided slice
         v[...] = z
         return v
+    if layout == 'R':
+        return np.rot90(np.ascontiguousarray(np.rot90(z, -1)))  # rot90 view of a C array (column-major with a negative stride)
+    if layout == 'N':
+        return np.ascontiguousarray(z[::-1, ::-1])[::-1, ::-1]  # both strides negative
+    if layout == 'FS':
+        big = np.asfortranarray(np.full((2 * z.shape[0] + 1, z.shape[1] + 2), -777.0).astype(z.dtype))
+        v = big[1::2, 1:-1]                                     # strided slice of a Fortran array
+        v[...] = z
+        return v
     return z
 
 
@@ -248,9 +272,22 @@ def as_scalar(v, kind):
 
 
 # ---------------------------------------------------------------------------------------------- attribution helpers
-def cfg_parts(z, wl=None):
-    """The non-default (single precision / integer) ingredients of a call."""
+def layout_class(z):
+    """'' for a C-contiguous (or 1xN / Nx1 / non-array) map, else the class of its memory layout."""
+    if not isinstance(z, np.ndarray) or z.ndim != 2 or min(z.shape) < 2 or z.flags.c_contiguous:
+        return ''
+    # the axis that varies fastest in memory decides: Fortran arrays, transposed / rot90 views and slices of them are
+    # column-major, strided or reversed slices of C arrays are row-major but not contiguous
+    return 'column-major-layout' if abs(z.strides[0]) < abs(z.strides[1]) else 'non-contiguous-layout'
+
+
+def cfg_parts(z, wl=None, orig=None):
+    """The non-default (single precision / integer / memory layout) ingredients of a call.  `orig`: the array object the
+    caller handed over when `z` is a copy of it (a copy of a strided view is contiguous)."""
     parts = []
+    lc = layout_class(orig if orig is not None else z)
+    if lc:
+        parts.append(lc)
     dt = getattr(z, 'dtype', None)
     if dt is not None and dt.kind == 'f' and dt.itemsize < 8:
         parts.append('float32-data')
@@ -265,11 +302,15 @@ def cfg_parts(z, wl=None):
 
 def with_parts(z, wl, parts):
     """(map, wavelength, precision) of the same case with only `parts` non-default."""
-    z2 = np.array(z, dtype=float)
+    z2 = np.array(z, dtype=float, order='C')
     if 'float32-data' in parts:
         z2 = z2.astype(np.float32)
     if 'integer-data' in parts:
-        z2 = np.array(z, copy=True)
+        z2 = np.array(z, copy=True, order='C')
+    if 'column-major-layout' in parts:
+        z2 = np.asfortranarray(z2)
+    if 'non-contiguous-layout' in parts:
+        z2 = as_layout(z2, 'S')
     w = None if wl is None else (np.float32(wl) if 'float32-wavelength' in parts else float(wl))
     return z2, w, 32 if 'precision32' in parts else 64
 
@@ -290,6 +331,16 @@ def attribute_cfg(parts, reproduces):
     except Exception:  # noqa
         pass
     return '/' + '+'.join(parts)
+
+
+def layout_key(key):
+    """`C14/<fmt>/[writer/]<symptom>/<layout class>` -> `C14/<fmt>/[writer/]form:layout=<class>`: when the C-ordered copy of the
+    same map is fine, the defect is the dependence on the strides, whatever the scrambled file looks like."""
+    for lc in ('column-major-layout', 'non-contiguous-layout'):
+        if key.endswith('/' + lc):
+            head = key[:-len(lc) - 1].rsplit('/', 1)[0]
+            return f'{head}/form:layout={lc[:-7]}'
+    return key
 
 
 def fired(ctx, prefix):
@@ -364,6 +415,8 @@ def post_write_zygo(z, args, kwargs, result):
     hist = dx_class(cur[0])
     prev = _MEM['last']
     wl_hist = 'changed' if prev is not None and prev[1] != cur[1] else 'first-or-same'
+    if 'wavelength' not in kwargs and len(args) < 4:
+        wl_hist = 'omitted/' + wl_hist          # the documented default (HeNe) applies
     _MEM['last'] = cur
     _MEM['any_cal'] = _MEM['any_cal'] or cur[0] != 0
     path = _path_of(a['file'])
@@ -390,7 +443,9 @@ def post_write_zygo(z, args, kwargs, result):
                       f'given ({hist.replace("-", " ")})', desc, written_mm=fdx, given_mm=cur[0], previous_write=prev)
     if abs(fwl - cur[1]) > scalar_tol(cur[1], low):
         CTX.violation(f'C14/zygo/writer/header-wavelength/{wl_hist}', 'the wavelength in the written Zygo header is not the one the writer '
-                      'was given', desc, written_um=fwl, given_um=cur[1], previous_write=prev)
+                      'was given' + (' (omitted: the documented default 0.6328 um)' if wl_hist.startswith('omitted') else ''), desc,
+                      written_um=fwl, given_um=cur[1], previous_write=prev)
+        return      # the quantisation step of the file is not the one the caller asked for: the map comparison would only repeat this
     cls, _ = classify(img, z, tolerance(z, step, low))
     if cls != 'ok':
         def reproduces(parts):
@@ -400,8 +455,8 @@ def post_write_zygo(z, args, kwargs, result):
                 pio.write_zygo_dat(f, z2, cur[0], wavelength=w2)           # monitors are bypassed inside a contract
                 im2 = ref.zygo_read(open(f, 'rb').read())[0]
                 return classify(im2, z2, tolerance(z2, step, lowprec(z2, w2)))[0] != 'ok'
-        cfg = attribute_cfg(cfg_parts(z, wl), reproduces)
-        CTX.violation(f'C14/zygo/writer/{cls}{cfg}', f'the file written by write_zygo_dat does not encode the map it was given: {cls}',
+        cfg = attribute_cfg(cfg_parts(z, wl, orig=a['phase']), reproduces)
+        CTX.violation(layout_key(f'C14/zygo/writer/{cls}{cfg}'), f'the file written by write_zygo_dat does not encode the map it was given: {cls}',
                       desc, decoded_shape=list(img.shape), max_err_nm=_maxerr(img, z), step_nm=step)
 
 
@@ -457,8 +512,8 @@ def post_write_codev(z, args, kwargs, result):
                 f = os.path.join(td, 'a.int')
                 pio.write_codev_gridint(z2, f)
                 return decode(f, z2)[0] != 'ok'
-        cfg = attribute_cfg(cfg_parts(z), reproduces)
-        CTX.violation(f'C14/codev/writer/{cls}{cfg}', f'the file written by write_codev_gridint does not encode the map it was given: {cls}',
+        cfg = attribute_cfg(cfg_parts(z, orig=a['array']), reproduces)
+        CTX.violation(layout_key(f'C14/codev/writer/{cls}{cfg}'), f'the file written by write_codev_gridint does not encode the map it was given: {cls}',
                       desc, decoded_shape=list(img.shape), max_err_nm=_maxerr(img, z), step_nm=step)
 
 
@@ -568,12 +623,12 @@ def zygo_trip(tmp, tag, z, dx, wl, route, prec):
     with precision(prec), warnings.catch_warnings():
         warnings.simplefilter('ignore')
         p2 = os.path.join(tmp, f'{tag}.dat')
-        write_zygo(p2, np.array(z, copy=True), dx, wl, 'path', route)
+        write_zygo(p2, z, dx, wl, 'path', route)
         g, _, _, _ = read_zygo(p2, route)
         return classify(g, z, tolerance(z, float(wl) * 1e3 / 32768, lowprec(z, wl)))[0]
 
 
-def judge_zygo(ctx, tmp, path, desc, z, dx, wl, got, dx2, wl2, route, mon, keyf):
+def judge_zygo(ctx, tmp, path, desc, z, dx, wl, got, dx2, wl2, route, mon, keyf, orig=None):
     """Compare what was read with what was written.  keyf(fmt, what) builds the violation key.  Returns the class."""
     from prysm import io as pio
     fmt = 'zygo' if route == 'io' else 'ifg'
@@ -605,8 +660,8 @@ def judge_zygo(ctx, tmp, path, desc, z, dx, wl, got, dx2, wl2, route, mon, keyf)
         def reproduces(parts):
             z2, w2, prec = with_parts(z, wl, parts)
             return zygo_trip(tmp, f'attr{ctx.shard}', z2, float(dx), w2, route, prec) != 'ok'
-        suffix = attribute_cfg(cfg_parts(z, wl), reproduces)
-        ctx.violation(keyf(key_fmt, cls + suffix), f'Zygo .dat write->read ({route}) does not return the map that was written: {cls}',
+        suffix = attribute_cfg(cfg_parts(z, wl, orig=orig), reproduces)
+        ctx.violation(layout_key(keyf(key_fmt, cls + suffix)), f'Zygo .dat write->read ({route}) does not return the map that was written: {cls}',
                       desc, got_shape=list(np.shape(got)), max_err_nm=_maxerr(got, z), step_nm=step, **detail)
     ok = abs(float(dx2) - float(dx)) <= scalar_tol(dx, low) and abs(float(wl2) - float(wl)) <= scalar_tol(wl, low)
     ctx.require(mon + '.dx-wavelength', ok, keyf(fmt, 'dx-or-wavelength'), 'dx / wavelength not returned to float32 resolution',
@@ -623,10 +678,11 @@ def rt_zygo(ctx, tmp, desc, z, dx, wl, form, route, resave=False):
         zin = z.copy(order='K') if z.flags.c_contiguous or z.flags.f_contiguous else z
         keep = np.array(z, copy=True)
         write_zygo(path, zin, dx, wl, form, route)
-        got, dx2, wl2, obj = read_zygo(path, route)
+        # reader argument form: the file name as str or as pathlib.Path (both accepted today), alternating
+        got, dx2, wl2, obj = read_zygo(pathlib.Path(path) if desc.get('k', 0) % 2 else path, route)
         ctx.require('writer.input-untouched', np.array_equal(zin, keep, equal_nan=True), f'C14/{fmt}/writer-mutates-input',
                     'the writer modified the caller\'s array', desc)
-        cls = judge_zygo(ctx, tmp, path, desc, keep, dx, wl, got, dx2, wl2, route, mon, plain)
+        cls = judge_zygo(ctx, tmp, path, desc, keep, dx, wl, got, dx2, wl2, route, mon, plain, orig=zin)
         if resave and cls == 'ok':
             # write what the reader returned (its dtype, its NaNs, its strides, its scalars) and read that back: a plain
             # round trip whose input came from the reader, so it is keyed like one
@@ -650,14 +706,14 @@ def codev_trip(tmp, tag, z, prec):
     with precision(prec), warnings.catch_warnings():
         warnings.simplefilter('ignore')
         p2 = os.path.join(tmp, f'{tag}.int')
-        write_codev(p2, np.array(z, copy=True), 'path')
+        write_codev(p2, z, 'path')
         g = pio.read_codev_gridint(p2)[0]
         _, hdr, _ = ref.codev_split(open(p2).read())
         h = ref.codev_header(hdr)
         return classify(g, z, _codev_tol(z, 1000.0 * h['wvl'] / abs(h['ssz'])))[0]
 
 
-def judge_codev(ctx, tmp, path, desc, z, got, mon, keyf):
+def judge_codev(ctx, tmp, path, desc, z, got, mon, keyf, orig=None):
     text = open(path).read()
     detail = {}
     try:
@@ -693,8 +749,8 @@ def judge_codev(ctx, tmp, path, desc, z, got, mon, keyf):
         def reproduces(parts):
             z2, _, prec = with_parts(z, None, parts)
             return codev_trip(tmp, f'attr{ctx.shard}', z2, prec) != 'ok'
-        suffix = attribute_cfg(cfg_parts(z), reproduces)
-        ctx.violation(keyf(cls + suffix), f'Code V grid INT write->read does not return the map that was written: {cls}',
+        suffix = attribute_cfg(cfg_parts(z, orig=orig), reproduces)
+        ctx.violation(layout_key(keyf(cls + suffix)), f'Code V grid INT write->read does not return the map that was written: {cls}',
                       desc, got_shape=list(np.shape(got)), max_err_nm=_maxerr(got, z), step_nm=step, **detail)
     return cls
 
@@ -720,10 +776,10 @@ def rt_codev(ctx, tmp, desc, z, form, resave=False):
         zin = z.copy(order='K') if z.flags.c_contiguous or z.flags.f_contiguous else z
         keep = np.array(z, copy=True)
         write_codev(path, zin, form)
-        got, meta = pio.read_codev_gridint(path)
+        got, meta = pio.read_codev_gridint(pathlib.Path(path) if desc.get('k', 0) % 2 else path)
         ctx.require('writer.input-untouched', np.array_equal(zin, keep, equal_nan=True), 'C14/codev/writer-mutates-input',
                     'the writer modified the caller\'s array', desc)
-        cls = judge_codev(ctx, tmp, path, desc, keep, got, 'roundtrip.codev', plain)
+        cls = judge_codev(ctx, tmp, path, desc, keep, got, 'roundtrip.codev', plain, orig=zin)
         if resave and cls == 'ok':
             path2 = os.path.join(tmp, f'cr{ctx.shard}.int')
             d2 = dict(desc, resave=True, dtype=str(got.dtype), **{'class': desc['class'] + ':resave'})
@@ -792,7 +848,6 @@ def roundtrips(ctx, tmp):
         cases.append((shape, VALUE_CLASSES[int(rs.integers(len(VALUE_CLASSES)))], NAN_CLASSES[int(rs.integers(len(NAN_CLASSES)))],
                       int(rs.integers(len(CFGS) + 1))))
     n_enum = len(cases) - nrand
-    variant = 0          # running counter that de-correlates forms / scalar types / layouts from the enumeration order
     for k, (shape, vcls, ncls, cfgpick) in enumerate(cases):
         if not ctx.mine(k):
             continue
@@ -808,13 +863,15 @@ def roundtrips(ctx, tmp):
             cfgs = [INT_CFGS[k % len(INT_CFGS)]] if int_ok else [CFGS[0]]
         else:
             cfgs = [CFGS[cfgpick]]
-        for dt, prec in cfgs:
-            for route in ('zygo', 'ifg', 'codev'):
-                variant += 1
+        for ci, (dt, prec) in enumerate(cfgs):
+            for ri, route in enumerate(('zygo', 'ifg', 'codev')):
+                # selectors of argument forms / scalar types / layouts / re-saves: each mixes the case number, the configuration
+                # and the route differently, so that every writer meets every form (a single running counter tied them to the route)
+                variant = k // ctx.nshards + ci + ri
                 fmt = 'codev' if route == 'codev' else 'zygo'
                 sk = SCALARS[variant % 3] if route != 'codev' else 'py'
                 wl = as_scalar(wl0, sk)
-                dx = as_scalar(dx0, SCALARS[(variant // 3) % 3]) if route != 'codev' else dx0
+                dx = as_scalar(dx0, SCALARS[(variant // 3 + ri) % 3]) if route != 'codev' else dx0
                 zm = make_values(vcls, shape, rng, fmt, float(wl))
                 ncls_eff = put_nans(ncls, zm, rng)
                 if not np.isfinite(zm).any():
@@ -827,10 +884,12 @@ def roundtrips(ctx, tmp):
                     # float32 rounding of the map must not push it past the int32 range of the format
                     lim = 0.93 * 2 ** 31 * float(wl) * 1e3 / 32768
                     z = np.clip(z, -lim, lim).astype(dt)
-                layout = LAYOUTS[(variant // 2) % 4] if (variant % 3 == 0) else 'C'
+                v2 = k // ctx.nshards + 2 * ci + ri
+                layout = LAYOUTS[(v2 // 3 + ci) % 4] if (v2 % 3 == 0) else 'C'
                 z = as_layout(z, layout)
-                form = (CFORMS[(variant // 5) % len(CFORMS)] if route == 'codev' else ZFORMS[(variant // 5) % len(ZFORMS)])
-                resave = (variant % 4 == 1) or (ncls_eff != 'none' and variant % 2 == 1)
+                v3 = k // ctx.nshards + 3 * ci + 2 * ri
+                form = (CFORMS[v3 % len(CFORMS)] if route == 'codev' else ZFORMS[v3 % len(ZFORMS)])
+                resave = (variant % 4 == 1) or (ncls_eff != 'none' and v3 % 2 == 1)
                 cfgname = f'{dt}/p{prec}'
                 desc = {'wl': 'roundtrip', 'route': route, 'shape': shape, 'values': vcls, 'nan': ncls_eff, 'form': form, 'k': k,
                         'layout': layout, 'dtype': dt, 'precision': prec, 'resave': bool(resave),
@@ -845,6 +904,279 @@ def roundtrips(ctx, tmp):
                         rt_zygo(ctx, tmp, desc, z, dx, wl, form, 'io' if route == 'zygo' else 'ifg', resave=resave)
     ctx.note('roundtrips', f'{n_enum} enumerated (shape, values, NaN) classes x {len(CFGS)} configurations (+ an integer container for '
              f'NaN-free maps) x 3 routes; {nrand} random; about a third re-saved from the reader\'s result')
+
+
+# ---------------------------------------------------------------------------------------------- memory layouts (class A / E)
+ALL_LAYOUTS = ['C', 'F', 'T', 'R', 'S', 'N', 'FS']
+LAYOUT_SHAPES = [(2, 3), (3, 2), (5, 8), (8, 5), (4, 4), (7, 3), (2, 9), (6, 6), (3, 11), (12, 5)]
+
+
+def layouts(ctx, tmp):
+    """Every writer (io.write_zygo_dat in its argument forms, Interferogram.save_zygo_dat, io.write_codev_gridint in its
+    argument forms) sees every memory layout of the same map: C, Fortran, transposed view, rot90 view, strided slice,
+    negative strides, strided slice of a Fortran block -- non-square and square shapes with both dimensions > 1, content that
+    is asymmetric under every flip / transposition (ramp + asymmetric NaN blob), all data dtype x precision configurations.
+    The file must not depend on the strides; a failure that the C-ordered copy of the same map does not show is keyed
+    `.../column-major-layout` or `.../non-contiguous-layout`."""
+    shapes = LAYOUT_SHAPES[:ctx.pick(6, len(LAYOUT_SHAPES))]
+    rs = np.random.default_rng([ctx.seed, 14140])
+    for _ in range(ctx.pick(0, 1500)):
+        shapes.append((int(rs.integers(2, 40)), int(rs.integers(2, 40))))
+    k = -1
+    for si, shape in enumerate(shapes):
+        for layout in ALL_LAYOUTS:
+            for ri, route in enumerate(('zygo', 'ifg', 'codev')):
+                k += 1
+                if not ctx.mine(k):
+                    continue
+                rng = np.random.default_rng([ctx.seed, 1415, k])
+                ci = (si + ALL_LAYOUTS.index(layout) + ri) % (len(CFGS) + 1)
+                dt, prec = CFGS[ci] if ci < len(CFGS) else INT_CFGS[k % len(INT_CFGS)]
+                wl = float(rng.uniform(0.4, 2.0))
+                dx = float(10 ** rng.uniform(-3, 1))
+                H, W = shape
+                # asymmetric content: a ramp that is different along the two axes plus noise; NaN blob for float containers
+                zm = (np.arange(H)[:, None] * 37.0 - np.arange(W)[None, :] * 11.0) + rng.standard_normal(shape) * 3 + 5.0
+                ncls = 'none'
+                if np.dtype(dt).kind == 'f' and (k // 3) % 2 == 0:
+                    ncls = put_nans('blob', zm, rng)
+                z = as_layout(as_dtype(zm, dt), layout)
+                form = (CFORMS if route == 'codev' else ZFORMS)[(k // 7) % (len(CFORMS) if route == 'codev' else len(ZFORMS))]
+                desc = {'wl': 'layout', 'route': route, 'shape': shape, 'layout': layout, 'strides': list(z.strides), 'dtype': dt, 'precision': prec,
+                        'nan': ncls, 'form': form, 'k': k, 'class': f'layout:{route}:{layout}:{shape_class(shape)}:{dt}/p{prec}'}
+                if route != 'codev':
+                    desc['dx'], desc['wavelength'] = dx, wl
+                ctx.case(desc)
+                ctx.observe('layout.' + route)
+                with precision(prec):
+                    if route == 'codev':
+                        rt_codev(ctx, tmp, desc, z, form, resave=False)
+                    else:
+                        rt_zygo(ctx, tmp, desc, z, dx, wl, form, 'io' if route == 'zygo' else 'ifg', resave=False)
+    ctx.note('layouts', f'{len(shapes)} shapes x {len(ALL_LAYOUTS)} memory layouts x 3 writers (argument forms rotating), asymmetric content')
+
+
+# ---------------------------------------------------------------------------------------------- omitted vs explicit defaults
+# Documented defaults of the optional arguments (signatures and docstrings of the tree as it is now):
+DEFAULTS = {
+    'write_zygo_dat': {'wavelength': 0.6328, 'intensity': None},
+    'write_codev_gridint': {'comment': 'CV GRD generated by prysm', 'typ': 'SUR', 'nnb': False},
+    'Interferogram': {'dx': 0, 'wavelength': 0.6328, 'intensity': None, 'meta': None},
+    'read_zygo_dat': {'multi_intensity_action': 'first'},
+    'from_zygo_dat': {'multi_intensity_action': 'first'},
+}
+ZYGO_TIMESTAMP_BYTES = slice(76, 80)     # MetroPro header format 1: time_stamp (the only field that may differ between two writes)
+
+
+def _zygo_fields(path):
+    raw = open(path, 'rb').read()
+    img, fdx, fwl, ints = ref.zygo_read(raw)
+    return {'shape': list(img.shape), 'dx_mm': fdx, 'wavelength_um': fwl, 'ints': ints, 'phase_res': ref.zygo_header(raw)['phase_res']}
+
+
+def _codev_fields(path):
+    text = open(path).read()
+    title, hdr, _ = ref.codev_split(text)
+    img, h, ints = ref.codev_read(text)
+    return {'title': title, 'nx': h['nx'], 'ny': h['ny'], 'typ': h.get('typ'), 'wvl': h['wvl'], 'ssz': h['ssz'], 'nda': h['nda'], 'nnb': h['nnb'],
+            'ints': ints}
+
+
+def _same_fields(a, b, counts=0):
+    """names of the decoded fields in which two files differ; `counts`: allowed difference of the integer samples (0 when both
+    calls pass the same numbers in the same types; 1 when the scalar types differ -- a numpy scalar makes numpy carry float32
+    data in double, a python float does not, so the truncation to counts may fall on the other side)"""
+    out = []
+    for k_ in a:
+        va, vb = a[k_], b[k_]
+        if isinstance(va, np.ndarray):
+            if va.shape != vb.shape or not (np.abs(va - vb) <= counts).all():
+                out.append(k_)
+        elif va != vb:
+            out.append(k_)
+    return out
+
+
+def foreign_traffic(ctx, tmp):
+    """Class F prelude: the other public consumers of the helpers the writers / readers share (the Zygo header table:
+    write_zygo_ascii / Interferogram.save_zygo_ascii / read_zygo_metadata; the Code V ZFR writer; config.precision) called
+    with explicit non-default values under both precisions.  Nothing is judged here; a failure is only counted."""
+    from prysm import io as pio
+    from prysm.interferogram import Interferogram
+    rng = np.random.default_rng([ctx.seed, 1417, ctx.shard])
+    z = rng.standard_normal((5, 7)) * 40
+    z[1, 2] = np.nan
+    for prec in (32, 64):
+        with precision(prec), warnings.catch_warnings(), contextlib.redirect_stdout(_io.StringIO()):
+            warnings.simplefilter('ignore')
+            try:
+                pio.write_zygo_ascii(os.path.join(tmp, f'f{ctx.shard}.asc'), phase=z, dx=0.37, wavelength=1.55, intensity=None)
+                Interferogram(z.astype(np.float32), dx=2.5, wavelength=10.6).save_zygo_ascii(os.path.join(tmp, f'g{ctx.shard}.asc'))
+                pf = os.path.join(tmp, f'f{ctx.shard}.dat')
+                pio.write_zygo_dat(pf, z[:3, :2], 7.0, wavelength=3.39)
+                pio.read_zygo_metadata(open(pf, 'rb').read())
+                pio.write_codev_zfr_int([1.0, -2.0, 3.5], os.path.join(tmp, f'f{ctx.shard}.zfr'), comment='foreign', SUR=False)
+                ctx.event('foreign-traffic prelude completed')
+            except Exception as e:  # noqa  (not a routine of this property)
+                ctx.event(f'foreign-traffic prelude: {type(e).__name__} (not judged)')
+
+
+def defaults(ctx, tmp):
+    """Class E x B: every optional argument of the writers / readers omitted vs passed as its documented default, each after
+    earlier calls in the same process that passed OTHER explicit values.  Each file is judged on its own (round trip against
+    the map and the documented default; writer contract against the independent decoder) and the two files (omitted /
+    explicit default) must decode to the same fields."""
+    from prysm import io as pio
+    from prysm.interferogram import Interferogram
+    nrep = ctx.pick(6, 1200)
+    k = -1
+    for rep in range(nrep):
+        for target in ('zygo:wavelength', 'zygo:intensity', 'zygo:wavelength-positional', 'ifg:wavelength', 'ifg:dx+wavelength', 'codev:typ', 'codev:nnb',
+                       'codev:comment', 'codev:all', 'read_zygo:multi_intensity_action', 'from_zygo_dat:multi_intensity_action',
+                       'zygo:integer-scalars', 'codev:typ-case'):
+            k += 1
+            if not ctx.mine(k):
+                continue
+            rng = np.random.default_rng([ctx.seed, 1416, k])
+            shape = [(3, 4), (4, 3), (2, 5), (5, 5), (6, 2)][int(rng.integers(5))] if rep else (3, 4)
+            dt, prec = CFGS[rep % 4] if rep >= 2 else CFGS[0]
+            HENE = DEFAULTS['write_zygo_dat']['wavelength']
+            other_wl = float(rng.uniform(0.9, 10.6))
+            dx = float(10 ** rng.uniform(-3, 1))
+            z = make_values('mixed', shape, rng, 'zygo', HENE)
+            ncls = put_nans(NAN_CLASSES[k % 4], z, rng)
+            z = z.astype(dt)
+            zo = (make_values('pos-large', shape[::-1], rng, 'zygo', other_wl)).astype(dt)      # the map of the earlier, explicit call
+            desc = {'wl': 'defaults', 'target': target, 'shape': shape, 'dtype': dt, 'precision': prec, 'nan': ncls, 'dx': dx,
+                    'earlier_explicit': {'wavelength': other_wl}, 'rep': rep, 'class': f'defaults:{target}:{dt}/p{prec}'}
+            ctx.case(desc)
+            pa, pb, pc = (os.path.join(tmp, f'd{ctx.shard}{c}.{"int" if target.startswith("codev") else "dat"}') for c in 'abc')
+            fam, arg = target.split(':')
+            arg = 'wavelength' if arg == 'wavelength-positional' else arg
+            key = f'C14/{ {"zygo": "zygo", "ifg": "ifg", "codev": "codev", "read_zygo": "zygo", "from_zygo_dat": "ifg"}[fam] }/form:{arg}=omitted'.replace(' ', '')
+            step = HENE * 1e3 / 32768
+            with precision(prec), ctx.guard(key, desc), warnings.catch_warnings():
+                warnings.simplefilter('ignore')
+                keep = np.array(z, copy=True)
+                if fam in ('zygo', 'ifg'):
+                    # earlier traffic with explicit non-default values (io function and method form)
+                    pio.write_zygo_dat(pc, zo, dx * 3, wavelength=other_wl, intensity=None)
+                    Interferogram(zo, dx=dx * 2, wavelength=other_wl * 0.5).save_zygo_dat(pc)
+                    want_dx, want_wl = dx, HENE
+                    if target == 'zygo:wavelength':
+                        pio.write_zygo_dat(pa, z, dx)
+                        pio.write_zygo_dat(pc, zo, dx * 3, wavelength=other_wl)
+                        pio.write_zygo_dat(pb, z, dx, wavelength=HENE)
+                    elif target == 'zygo:wavelength-positional':
+                        pio.write_zygo_dat(pa, z, dx)
+                        pio.write_zygo_dat(pc, zo, dx * 3, other_wl)
+                        pio.write_zygo_dat(pb, z, dx, HENE, None)
+                    elif target == 'zygo:intensity':
+                        pio.write_zygo_dat(pa, z, dx, wavelength=HENE)
+                        pio.write_zygo_dat(pb, z, dx, wavelength=HENE, intensity=None)
+                    elif target == 'zygo:integer-scalars':
+                        # dx and wavelength as python / numpy integers: the same numbers as their float forms
+                        want_dx, want_wl = float(int(rng.integers(1, 5))), 1.0
+                        step = want_wl * 1e3 / 32768
+                        ints = [(int(want_dx), 1), (np.int64(want_dx), np.int32(1)), (np.int32(want_dx), np.int64(1))][rep % 3]
+                        pio.write_zygo_dat(pa, z, ints[0], wavelength=ints[1])
+                        pio.write_zygo_dat(pb, z, want_dx, wavelength=want_wl)
+                        key = 'C14/zygo/form:dx+wavelength=integer'
+                    elif target == 'ifg:wavelength':
+                        Interferogram(z, dx=dx).save_zygo_dat(pa)
+                        Interferogram(zo, dx=dx, wavelength=other_wl).save_zygo_dat(pc)
+                        Interferogram(z, dx=dx, wavelength=HENE, intensity=None, meta=None).save_zygo_dat(pb)
+                    else:   # ifg:dx+wavelength
+                        want_dx = 0.0
+                        Interferogram(z).save_zygo_dat(pa)
+                        Interferogram(zo, dx=dx, wavelength=other_wl).save_zygo_dat(pc)
+                        Interferogram(z, 0, HENE).save_zygo_dat(pb)
+                    ctx.observe('defaults.zygo')
+                    route = 'io' if fam == 'zygo' else 'ifg'
+                    # the explicit call is an ordinary round trip (plain keys); the omitting call gets ONE key per (format, argument)
+                    got, dx2, wl2, _ = read_zygo(pb, route)
+                    cls_b = judge_zygo(ctx, tmp, pb, dict(desc, file='explicit'), keep, want_dx, want_wl, got, dx2, wl2, route,
+                                       'defaults.' + ('zygo' if fam == 'zygo' else 'ifg'), lambda f, w: f'C14/{f}/{w}')
+                    fa, fb = _zygo_fields(pa), _zygo_fields(pb)
+                    diff = _same_fields(fa, fb, counts=1 if target == 'zygo:integer-scalars' else 0)
+                    got, dx2, wl2, _ = read_zygo(pa, route)
+                    low = lowprec(keep, want_wl)
+                    cls_a = classify(got, keep, tolerance(keep, step, low))[0]
+                    ok_s = abs(float(dx2) - want_dx) <= scalar_tol(want_dx, low) and abs(float(wl2) - want_wl) <= scalar_tol(want_wl, low)
+                    symptoms = ([f'file differs from the explicit-default file in {diff}'] if diff else []) + ([f'map: {cls_a}'] if cls_a != 'ok' else []) + \
+                        ([f'dx / wavelength read back as {float(dx2)!r} / {float(wl2)!r}'] if not ok_s else [])
+                    ctx.require('defaults.omitted-eq-explicit', not symptoms or cls_b != 'ok', key,
+                                ('write with dx / wavelength handed over as python / numpy integers (same numbers as the float call): '
+                                 if target == 'zygo:integer-scalars' else
+                                 f'write with {arg} omitted (documented default) after earlier writes with other explicit values: ') + '; '.join(symptoms),
+                                desc, fields=diff, omitted={k_: v_ for k_, v_ in fa.items() if k_ != 'ints'},
+                                explicit={k_: v_ for k_, v_ in fb.items() if k_ != 'ints'})
+                elif fam == 'codev':
+                    D = DEFAULTS['write_codev_gridint']
+                    pio.write_codev_gridint(zo, pc, comment='some other comment', typ='WFR', nnb=True)
+                    kw_omit, kw_expl = {}, dict(D)
+                    if arg == 'typ':
+                        kw_omit = {'comment': D['comment'], 'nnb': D['nnb']}
+                    elif arg == 'nnb':
+                        kw_omit = {'comment': D['comment'], 'typ': D['typ']}
+                    elif arg == 'comment':
+                        kw_omit = {'typ': D['typ'], 'nnb': D['nnb']}
+                    elif arg == 'typ-case':
+                        kw_omit = {'typ': ['sur', 'Sur', 'sUR'][rep % 3]}
+                        key = 'C14/codev/form:typ=letter-case'
+                    pio.write_codev_gridint(z, pa, **kw_omit)
+                    pio.write_codev_gridint(zo, pc, 'x', 'wfr', True)
+                    if rep % 2:
+                        pio.write_codev_gridint(z, pb, D['comment'], D['typ'], D['nnb'])
+                    else:
+                        pio.write_codev_gridint(array=z, filename=pb, **kw_expl)
+                    ctx.observe('defaults.codev')
+                    got, _ = pio.read_codev_gridint(pb)
+                    cls_b = judge_codev(ctx, tmp, pb, dict(desc, file='explicit'), keep, got, 'defaults.codev', lambda w: f'C14/codev/{w}')
+                    fa, fb = _codev_fields(pa), _codev_fields(pb)
+                    diff = _same_fields(fa, fb)
+                    got, _ = pio.read_codev_gridint(pa)
+                    st_ = 1000.0 * fa['wvl'] / abs(fa['ssz'])
+                    cls_a = classify(got, keep, _codev_tol(keep, st_))[0] if np.isfinite(st_) else 'ok'
+                    symptoms = ([f'file differs from the explicit-default file in {diff}'] if diff else []) + ([f'map: {cls_a}'] if cls_a != 'ok' else []) + \
+                        ([f'header says {fa["typ"]}{" NNB" if fa["nnb"] else ""}'] if not (fa['typ'] == 'SUR' and fa['nnb'] is False) else [])
+                    ctx.require('defaults.omitted-eq-explicit', not symptoms or cls_b != 'ok', key,
+                                f'Code V write with {arg} omitted (documented defaults) after an earlier write with other explicit values: '
+                                + '; '.join(symptoms), desc, fields=diff, omitted={k_: v_ for k_, v_ in fa.items() if k_ != 'ints'},
+                                explicit={k_: v_ for k_, v_ in fb.items() if k_ != 'ints'})
+                else:
+                    # readers: multi_intensity_action omitted vs 'first' explicit, after a read that passed another value
+                    pio.write_zygo_dat(pa, z, dx, wavelength=HENE)
+                    pio.write_zygo_dat(pc, zo, dx * 3, wavelength=other_wl)
+                    if fam == 'read_zygo':
+                        with contextlib.suppress(Exception):
+                            pio.read_zygo_dat(pc, multi_intensity_action='last')
+                        r1 = pio.read_zygo_dat(pa)
+                        with contextlib.suppress(Exception):
+                            pio.read_zygo_dat(pc, 'last')
+                        r2 = pio.read_zygo_dat(pa, 'first') if rep % 2 else pio.read_zygo_dat(file=pa, multi_intensity_action='first')
+                        g1, g2 = r1['phase'], r2['phase']
+                        s1 = (r1['meta']['lateral_resolution'] * 1e3, r1['meta']['wavelength'] * 1e6)
+                        s2 = (r2['meta']['lateral_resolution'] * 1e3, r2['meta']['wavelength'] * 1e6)
+                        route = 'io'
+                    else:
+                        with contextlib.suppress(Exception):
+                            Interferogram.from_zygo_dat(pc, multi_intensity_action='last')
+                        j1 = Interferogram.from_zygo_dat(pa)
+                        with contextlib.suppress(Exception):
+                            Interferogram.from_zygo_dat(pc, 'last')
+                        j2 = Interferogram.from_zygo_dat(pa, 'first') if rep % 2 else Interferogram.from_zygo_dat(path=pa, multi_intensity_action='first')
+                        g1, g2, s1, s2 = j1.data, j2.data, (j1.dx, j1.wavelength), (j2.dx, j2.wavelength)
+                        route = 'ifg'
+                    ctx.observe('defaults.readers')
+                    cls_b = judge_zygo(ctx, tmp, pa, dict(desc, file='explicit'), keep, dx, HENE, g2, s2[0], s2[1], route,
+                                       'defaults.' + ('zygo' if route == 'io' else 'ifg'), lambda f, w: f'C14/{f}/{w}')
+                    ctx.require('defaults.omitted-eq-explicit', cls_b != 'ok' or (g1.shape == g2.shape and np.array_equal(g1, g2, equal_nan=True) and s1 == s2),
+                                key, 'reading with multi_intensity_action omitted differs from reading with the documented default '
+                                "'first' passed explicitly (after a read that passed another value)", desc)
+                ctx.require('writer.input-untouched', np.array_equal(z, keep, equal_nan=True), 'C14/writer-mutates-input/defaults',
+                            'a writer modified the caller\'s array', desc)
+    ctx.note('defaults', {'documented_defaults': {f: {a_: repr(v_) for a_, v_ in d_.items()} for f, d_ in DEFAULTS.items()}, 'repetitions': nrep})
 
 
 # ---------------------------------------------------------------------------------------------- histories
@@ -1136,8 +1468,12 @@ def run(ctx):
     try:
         with tempfile.TemporaryDirectory(prefix='vp-c14-') as tmp:
             roundtrips(ctx, tmp)
+            layouts(ctx, tmp)
             truncation(ctx, tmp)
-            histories(ctx, tmp)          # last: a failure the plain round trips already showed is not a history effect
+            histories(ctx, tmp)          # after the round trips: a failure they already showed is not a history effect
+            foreign_traffic(ctx, tmp)    # class F: other consumers of the shared header table / configuration, then ...
+            defaults(ctx, tmp)
+            layouts(ctx, tmp) if ctx.quick else None      # ... the layout block once more after all that traffic (quick: it is small)
     finally:
         config.precision = old
         detach_all()
